@@ -146,11 +146,13 @@ Proof.
       try destruct (cbset s) eqn:Ecb; zeq; cbn; uc; lia.
   - unfold gstep. destruct (nth_error (gors s) i) as [g|]; [|left; reflexivity].
     destruct g as [| | |k cl|c more| | | | | | | |c|]; cbn; try (left; reflexivity);
-      try apply (cstep_mono s c); zeq; cbn; try destruct (recv s); try destruct (pending s); cbn; left; reflexivity.
-  - unfold clstep. destruct (nth_error (clos s) i) as [c|]; [|left; reflexivity]. cbn. apply (cstep_mono s c).
+      try (pose proof (cstep_mono s c) as Hm; unfold mono in *; destruct (negb (isret c) && isret (snd (cstep s c))); cbn; exact Hm);
+      zeq; cbn; try destruct (recv s); try destruct (pending s); cbn; left; reflexivity.
+  - unfold clstep. destruct (nth_error (clos s) i) as [c|]; [|left; reflexivity].
+    pose proof (cstep_mono s c) as Hm; unfold mono in *. destruct (negb (isret c) && isret (snd (cstep s c))); cbn; exact Hm.
   - unfold sstep, mono. destruct (spc s); cbn; try destruct (sypc s); try destruct (cbset s) eqn:Ecb; zeq; cbn; lia.
   - unfold ustep, mono. destruct (nth_error (users s) i) as [u|]; [|lia].
-    destruct (upc u); cbn; [destruct (utodo u); cbn; [lia|zeq; cbn; lia]|lia].
+    destruct (upc u); cbn; [destruct (utodo u); cbn; lia|zeq; cbn; lia|lia].
   - unfold systep, mono. destruct (sypc s); cbn; [|lia]. destruct (cbset s); [lia|]. destruct (spc s); try lia.
     destruct (sytodo s); cbn; lia.
 Qed.
@@ -175,10 +177,10 @@ Qed.
    ==================================================================================================== *)
 Ltac cb := cbn [step estep gstep clstep sstep ustep systep cstep setg clear_pending move_pending fst snd
   st inproc cstate wg cbset intable cnotify pending recv inbox epc gors clos spc users script sypc sytodo processed arrived
-  chunks consumed offers nlocal nremote out khalf lhalf casfail
+  chunks consumed offers nlocal nremote out khalf lhalf casfail nret isret
   set_st set_inproc set_cstate set_wg set_cbset set_intable set_cnotify set_pending set_recv set_inbox set_epc
   set_gors set_clos set_spc set_users set_script set_sypc set_sytodo set_processed set_arrived set_chunks set_consumed set_offers
-  set_nlocal set_nremote set_out set_khalf set_lhalf set_casfail
+  set_nlocal set_nremote set_out set_khalf set_lhalf set_casfail set_nret
   b2z nz c_athalf c_needcl c_pendcb c_send c_cleanT c_ret c_busy c_past gl g_own g_re g_act g_run g_cb g_exit g_all g_atclr g_w g_cbpast g_xc g_badclose
   e_proxy e_guard e_clr e_halfn e_half e_cas s_proxy s_busy y_busy upc utodo ures negb orb andb cz ncl] in *.
 
@@ -190,7 +192,7 @@ Ltac cases s w :=
       [destruct g as [| | |k cl|c more| | | | | | | |c|]; [ | | |destruct cl|destruct c| | | | | | | |destruct c|] |]
   | unfold clstep; destruct (nth_error (clos s) i) as [c|] eqn:Hn; [destruct c|]
   | unfold sstep; destruct (spc s) eqn:Es; [destruct (sypc s) eqn:Ey|..]
-  | unfold ustep; destruct (nth_error (users s) i) as [u|] eqn:Hn; [destruct (upc u); [destruct (utodo u)|]|]
+  | unfold ustep; destruct (nth_error (users s) i) as [u|] eqn:Hn; [destruct (upc u) as [|m|m aft]; [destruct (utodo u)| |]|]
   | unfold systep; destruct (sypc s) eqn:Ey;
       [destruct (cbset s) eqn:Ecb; [|destruct (spc s) eqn:Es; [destruct (sytodo s) eqn:Eyt|..]]|] ];
   cb.
@@ -203,6 +205,7 @@ Ltac brk := repeat match goal with
   | |- context [match recv ?s with _ => _ end] => destruct (recv s) eqn:Erv
   | |- context [match pending ?s with _ => _ end] => destruct (pending s) eqn:Epd
   | |- context [match ?m with O => _ | S _ => _ end] => destruct m
+  | |- context [if ?c then _ else _] => match c with context [?a =? ?b] => destruct (Z.eqb_spec a b) end
   end; cb.
 
 Ltac rw_eqs := repeat match goal with
@@ -1011,4 +1014,86 @@ Proof.
        | |- context [match inbox ?x with _ => _ end] => destruct (inbox x) as [|[m|] r]
        | |- context [if ?c then _ else _] => destruct c
        end; reflexivity.
+Qed.
+
+(* ====================================================================================================
+   Finality of the user operations: once some Close() has returned (nret > 0) the state is never `opened`
+   again — whichever of the three non-open states it is in, localHalfClosed included — so every Flush whose
+   state check comes later fails with ErrStreamClosed and sends nothing, and a read never blocks
+   ==================================================================================================== *)
+Record InvN (s : est) : Prop := {
+  n_nn : 0 <= nret s;
+  n_ret : st s = c_streamOpened -> nret s = 0 }.
+Lemma stepN s w : InvP s -> InvN s -> InvN (step s w).
+Proof. intros [_ P2 P3 _ _] [N1 N2]. cases s w; brk; constructor; fin s. Qed.
+Lemma initN cb0 inb n scr ups sy : InvN (init_sy cb0 inb n scr ups sy).
+Proof. constructor; cbn; [lia|auto]. Qed.
+Lemma runN sched s : InvAll s -> InvN s -> InvN (run sched s).
+Proof.
+  revert s; induction sched as [|w l IH]; simpl; intros s HA HN; auto.
+  apply IH; [apply stepAll, HA|apply stepN; [apply HA|exact HN]].
+Qed.
+
+(* a result (nil?, aft) is fine unless the Flush succeeded although a Close() had returned before its state check *)
+Definition r_ok (r : bool * bool) : bool := negb (fst r && snd r).
+Definition u_ok (u : ulocal) : Prop :=
+  Forall (fun r => r_ok r = true) (ures u) /\ (forall m, upc u <> UPut m true).
+
+Lemma Forall_set_nth {A} (P : A -> Prop) l i x : Forall P l -> P x -> Forall P (set_nth i x l).
+Proof.
+  intros H Hx. revert i; induction H as [|a l Ha Hl IH]; intros [|i]; simpl; constructor; auto.
+Qed.
+Lemma Forall_nth {A} (P : A -> Prop) l i x : Forall P l -> nth_error l i = Some x -> P x.
+Proof. intros H Hx. rewrite Forall_forall in H. apply H. eapply nth_error_In; eauto. Qed.
+
+Lemma users_frame s w : (forall i, w <> WUser i) -> users (step s w) = users s.
+Proof.
+  intros Hw. cases s w; brk; cb; try reflexivity; exfalso; eapply Hw; reflexivity.
+Qed.
+
+Lemma stepU s w : InvN s -> Forall u_ok (users s) -> Forall u_ok (users (step s w)).
+Proof.
+  intros [N1 N2] HU.
+  destruct w as [|j|j| |i|]; try (rewrite users_frame; [exact HU|intros k; discriminate]).
+  cbn [step]. unfold ustep. destruct (nth_error (users s) i) as [u|] eqn:Hn; [|exact HU].
+  destruct (Forall_nth _ _ _ _ HU Hn) as [Hr Hp].
+  destruct (upc u) as [|m|m aft] eqn:Eu.
+  - destruct (utodo u); [exact HU|]. cb. apply Forall_set_nth; [exact HU|]. split; cbn; [exact Hr|intros m0; discriminate].
+  - destruct (Z.eqb_spec (st s) c_streamOpened) as [E|E]; cb; apply Forall_set_nth; try exact HU; split; cbn.
+    + exact Hr.
+    + rewrite (N2 E). cbn. intros m0; discriminate.
+    + apply Forall_app; split; [exact Hr|repeat constructor].
+    + intros m0; discriminate.
+  - cb. apply Forall_set_nth; [exact HU|]. split; cbn.
+    + apply Forall_app; split; [exact Hr|]. constructor; [|constructor].
+      destruct aft; [exfalso; apply (Hp m); reflexivity|reflexivity].
+    + intros m0; discriminate.
+Qed.
+Lemma initU cb0 inb n scr ups sy : Forall u_ok (users (init_sy cb0 inb n scr ups sy)).
+Proof.
+  cbn. induction ups as [|p ups IH]; cbn; constructor; auto. split; cbn; [constructor|intros m; discriminate].
+Qed.
+Lemma runU sched s : InvAll s -> InvN s -> Forall u_ok (users s) -> Forall u_ok (users (run sched s)).
+Proof.
+  revert s; induction sched as [|w l IH]; simpl; intros s HA HN HU; auto.
+  apply IH; [apply stepAll, HA|apply stepN; [apply HA|exact HN]|apply stepU; auto].
+Qed.
+
+Theorem final_ops cb0 inb nc scr ups sy sched :
+  let s := run sched (init_sy cb0 inb nc scr ups sy) in
+  (* every Flush whose state check came after a returned Close() failed, and none is about to send *)
+  (forall i u, nth_error (users s) i = Some u ->
+     Forall (fun r => snd r = true -> fst r = false) (ures u) /\ (forall m, upc u <> UPut m true)) /\
+  (* and from now on: whatever non-open state the stream is in *)
+  (0 < nret s -> st s <> c_streamOpened /\ flush_res s = RErrStreamClosed /\ read_res s <> RBlocked).
+Proof.
+  intros s.
+  pose proof (runN sched _ (initAll cb0 inb nc scr ups sy) (initN cb0 inb nc scr ups sy)) as [N1 N2]. fold s in N1, N2.
+  pose proof (runU sched _ (initAll cb0 inb nc scr ups sy) (initN cb0 inb nc scr ups sy) (initU cb0 inb nc scr ups sy)) as HU.
+  fold s in HU. split.
+  - intros i u Hi. destruct (Forall_nth _ _ _ _ HU Hi) as [Hr Hp]. split; [|exact Hp].
+    rewrite Forall_forall in *. intros [ok aft] Hin Haft. specialize (Hr _ Hin). unfold r_ok in Hr. cbn in *.
+    subst aft. destruct ok; [discriminate|reflexivity].
+  - intros Hn. assert (Hst : st s <> c_streamOpened) by (intros E; specialize (N2 E); lia).
+    split; [exact Hst|split; [apply flush_closed|apply read_not_blocked]]; auto.
 Qed.
